@@ -6,9 +6,15 @@
 (* two values / expressions are comparable in TLC and survive a JSON round *)
 (* trip: only records, sequences, strings, ints and booleans are used):    *)
 (*   [k:"int",  i]            small integer                                *)
-(*   [k:"str",  s]            text: a sequence over the symbols 1,2        *)
-(*                            ("a","b"); the driver concretises it as str  *)
-(*                            or bytes, ASCII / non-ASCII / control chars  *)
+(*   [k:"bool", bi]           False / True (bi = 0 / 1)                    *)
+(*   [k:"float", fi]          the float with integral value fi             *)
+(*                            ints, bools and floats are == (and hash      *)
+(*                            alike) when their numeric values agree, but  *)
+(*                            differ in type and identity                  *)
+(*   [k:"str",  s]            text: a sequence over the symbols 1,2 ("a",  *)
+(*                            "b": the driver concretises them as str or   *)
+(*                            bytes, ASCII / non-ASCII / control chars,    *)
+(*                            always with newline < a < b) and 3 (newline) *)
 (*   [k:"list", l]            list of values                               *)
 (*   [k:"dict", d]            sequence of <<key, value>> pairs (distinct   *)
 (*                            keys; the order is the insertion order)      *)
@@ -42,6 +48,10 @@ Neg(r) == IF r = T THEN F ELSE IF r = F THEN T ELSE r
 -----------------------------------------------------------------------------
 (* value constructors *)
 IntV(n)  == [k |-> "int", i |-> n]
+BoolV(n) == [k |-> "bool", bi |-> n]
+FloatV(n) == [k |-> "float", fi |-> n]
+NumK == {"int", "bool", "float"}
+NumOf(v) == CASE v.k = "int" -> v.i [] v.k = "bool" -> v.bi [] v.k = "float" -> v.fi
 StrV(s)  == [k |-> "str", s |-> s]
 ListV(l) == [k |-> "list", l |-> l]
 DictV(d) == [k |-> "dict", d |-> d]
@@ -63,11 +73,13 @@ IsUserExc(ty) == Sub(ty, "EX")
 DKeys(d) == { d[j][1] : j \in DOMAIN d }
 DGet(d, key) == d[CHOOSE j \in DOMAIN d : d[j][1] = key][2]
 
+\* code-unit order of the text symbols: newline (3) < "a" (1) < "b" (2)
+Rank(c) == IF c = 3 THEN 0 ELSE c
 RECURSIVE SeqLt(_, _)
 SeqLt(a, b) == IF b = <<>> THEN FALSE
                ELSE IF a = <<>> THEN TRUE
-               ELSE IF a[1] < b[1] THEN TRUE
-               ELSE IF a[1] > b[1] THEN FALSE
+               ELSE IF Rank(a[1]) < Rank(b[1]) THEN TRUE
+               ELSE IF Rank(a[1]) > Rank(b[1]) THEN FALSE
                ELSE SeqLt(Tail(a), Tail(b))
 
 PrefixOf(p, s) == Len(p) <= Len(s) /\ SubSeq(s, 1, Len(p)) = p
@@ -78,10 +90,12 @@ Rev(s) == [j \in 1..Len(s) |-> s[Len(s) + 1 - j]]
 RECURSIVE SumV(_)
 SumV(l) == IF l = <<>> THEN 0 ELSE Head(l).i + SumV(Tail(l))
 
-(* == of the concrete values: structural; objects compare by (x, y), dicts ignore order *)
+(* == of the concrete values: structural; numbers compare by value whatever their type (1 == True == 1.0), *)
+(* objects compare by (x, y), dicts ignore order                                                            *)
 RECURSIVE VEq(_, _)
 VEq(a, b) ==
-    IF a.k # b.k THEN FALSE
+    IF a.k \in NumK /\ b.k \in NumK THEN NumOf(a) = NumOf(b)
+    ELSE IF a.k # b.k THEN FALSE
     ELSE CASE a.k = "obj"  -> a.x = b.x /\ a.y = b.y
            [] a.k = "dict" -> /\ DKeys(a.d) = DKeys(b.d)
                               /\ \A key \in DKeys(a.d) : VEq(DGet(a.d, key), DGet(b.d, key))
@@ -93,25 +107,32 @@ Count(l, x) == Cardinality({ j \in DOMAIN l : VEq(l[j], x) })
 SameBag(l1, l2) == /\ Len(l1) = Len(l2)
                    /\ \A j \in DOMAIN l1 : Count(l1, l1[j]) = Count(l2, l1[j])
 
-VLt(a, b) == IF a.k = "int" THEN a.i < b.i ELSE SeqLt(a.s, b.s)
+VLt(a, b) == IF a.k \in NumK THEN NumOf(a) < NumOf(b) ELSE SeqLt(a.s, b.s)
 
 LenOf(v) == CASE v.k = "str" -> Len(v.s) [] v.k = "list" -> Len(v.l) [] v.k = "dict" -> Len(v.d)
 
 (* Python type names: "int", "text" (str or bytes, whichever the concretisation uses), *)
 (* "list", "dict", "obj" (the test class), "tuple", "function", "object"                 *)
-TypeOf(v) == CASE v.k = "int" -> "int" [] v.k = "str" -> "text" [] v.k = "list" -> "list"
+TypeOf(v) == CASE v.k = "int" -> "int" [] v.k = "bool" -> "bool" [] v.k = "float" -> "float"
+               [] v.k = "str" -> "text" [] v.k = "list" -> "list"
                [] v.k = "dict" -> "dict" [] v.k = "obj" -> "obj" [] v.k = "exc" -> "tuple"
                [] v.k = "call" -> "function" [] v.k = "path" -> "pathstr" [] v.k = "key" -> "keystr"
-IsA(v, ty) == ty = "object" \/ TypeOf(v) = ty
+IsA(v, ty) == ty = "object" \/ TypeOf(v) = ty \/ (ty = "int" /\ v.k = "bool")     \* bool is a subclass of int
 
-(* a small regular-expression language: pat = [atoms |-> <<[c, star]...>>, anch |-> BOOLEAN]   *)
-(* c = 0 is '.', c in {1,2} the literal symbol; star = Kleene star on the atom; anch = '$'.    *)
-(* re.match semantics: the pattern must match a prefix of the text.                            *)
+(* a small regular-expression language: pat = [atoms |-> <<[c, star]...>>, anch |-> BOOLEAN, fl |-> flags]   *)
+(* c = 0 is '.', c in {1,2,3} the literal symbol (3 = newline); star = Kleene star on the atom; anch = '$';   *)
+(* fl = "" | "S" (re.DOTALL: '.' also matches a newline) | "M" (re.MULTILINE: '$' also matches before any     *)
+(* newline).  Without "M", '$' matches at the end and before a newline that ends the text.                     *)
+(* re.match semantics: the pattern must match a prefix of the text.                                            *)
+AtEnd(pat, s, j) ==
+    \/ j = Len(s) + 1
+    \/ j = Len(s) /\ s[j] = 3
+    \/ pat.fl = "M" /\ j <= Len(s) /\ s[j] = 3
 RECURSIVE RM(_, _, _, _)
 RM(pat, a, s, j) ==
-    IF a > Len(pat.atoms) THEN (~pat.anch \/ j = Len(s) + 1)
+    IF a > Len(pat.atoms) THEN (~pat.anch \/ AtEnd(pat, s, j))
     ELSE LET at  == pat.atoms[a]
-             hit == j <= Len(s) /\ (at.c = 0 \/ s[j] = at.c)
+             hit == j <= Len(s) /\ (IF at.c = 0 THEN (s[j] # 3 \/ pat.fl = "S") ELSE s[j] = at.c)
          IN IF at.star THEN RM(pat, a + 1, s, j) \/ (hit /\ RM(pat, a, s, j + 1))
             ELSE hit /\ RM(pat, a + 1, s, j + 1)
 ReMatch(pat, s) == RM(pat, 1, s, 1)
@@ -161,7 +182,7 @@ Sem(e, v) ==
     LET op == e.op IN
     CASE op = "Equals"      -> B(VEq(v, e.ref))
       [] op = "NotEquals"   -> B(~VEq(v, e.ref))
-      [] op = "Is"          -> IF v.k # e.ref.k THEN F
+      [] op = "Is"          -> IF v.k # e.ref.k THEN F                \* 1 is not True is not 1.0
                                ELSE IF v.k = "obj" THEN B(v.id = e.ref.id) ELSE B(v = e.ref)
       [] op = "LessThan"    -> B(VLt(v, e.ref))
       [] op = "GreaterThan" -> B(VLt(e.ref, v))
@@ -230,8 +251,8 @@ RECURSIVE InDomain(_, _)
 InDomain(e, v) ==
     LET op == e.op IN
     CASE op \in {"Equals", "NotEquals", "IsInstance", "Always", "Never", "MatchesException"} -> TRUE
-      [] op = "Is" -> v.k # e.ref.k \/ v.k \in {"int", "obj"}
-      [] op \in {"LessThan", "GreaterThan"} -> v.k = e.ref.k /\ v.k \in {"int", "str"}
+      [] op = "Is" -> v.k # e.ref.k \/ v.k \in {"int", "bool", "obj"}
+      [] op \in {"LessThan", "GreaterThan"} -> (v.k \in NumK /\ e.ref.k \in NumK) \/ (v.k = "str" /\ e.ref.k = "str")
       [] op = "Contains" -> ~(v.k = "str" /\ e.ref.k # "str")
       [] op = "ContainsAll" -> \A j \in DOMAIN e.refs : ~(v.k = "str" /\ e.refs[j].k # "str")
       [] op \in {"StartsWith", "EndsWith", "MatchesRegex"} -> v.k = "str"
